@@ -711,6 +711,9 @@ func TestC10(t *testing.T) {
 		if i%10 == 8 {
 			c10consumerPause(rep, seed, i)
 		}
+		if i%10 == 6 {
+			c10broadcastSamePort(rep, seed, i)
+		}
 		if rep.NViolations() > 4 {
 			break
 		}
@@ -1234,4 +1237,111 @@ func c10consumerPause(rep *vh.Report, seed uint64, idx int) {
 		rep.Violation("what=lost ep=consumer-pause", fmt.Sprintf("%d channels were reported open, 2 links were in use", len(snaps)), nil)
 	}
 	rep.Distinct("consumer-pause", idx)
+}
+
+// c10broadcastSamePort: a UDP broadcast endpoint bound to the wildcard address (":port"), and peers on OTHER hosts that use
+// the same UDP port as the node does (the usual arrangement: everybody on 14550). Their datagrams are sent from 127.0.0.2
+// and 127.0.0.3 with the node's own port as source port through a raw socket (needs CAP_NET_RAW, else inconclusive). Every
+// valid frame in them is a frame event, like the frames of a peer on another port.
+func c10broadcastSamePort(rep *vh.Report, seed uint64, idx int) {
+	if aborted() {
+		return
+	}
+	r := vh.Sub(seed, fmt.Sprintf("c10-bcast-sameport-%d", idx))
+	hookReset(r.U64(), false, false)
+	raw, err := net.ListenPacket("ip4:udp", "127.0.0.1")
+	if err != nil {
+		rep.Inconclusive("C10 broadcast same-port peers: no raw socket: " + err.Error())
+		return
+	}
+	defer raw.Close()
+	port := freeUDPPort()
+	node := &gomavlib.Node{Endpoints: []gomavlib.EndpointConf{gomavlib.EndpointUDPBroadcast{BroadcastAddress: fmt.Sprintf("127.255.255.255:%d", port), LocalAddress: fmt.Sprintf(":%d", port)}},
+		Dialect: testDialect, OutVersion: gomavlib.V2, OutSystemID: 81, HeartbeatDisable: true, IdleTimeout: 5 * time.Second}
+	if err := node.Initialize(); err != nil {
+		rep.Inconclusive("C10 broadcast same-port peers: " + err.Error())
+		return
+	}
+	c := newConsumer(rep, "C10", "udp-broadcast", node)
+	c.start()
+	other, err := net.Dial("udp4", fmt.Sprintf("127.0.0.1:%d", port))
+	if err != nil {
+		safeClose(rep, node)
+		return
+	}
+	defer other.Close()
+	// a UDP datagram with a chosen source address and port (checksum 0 = none, allowed over IPv4)
+	spoof := func(srcIP string, payload []byte) error {
+		rs, err := net.ListenPacket("ip4:udp", srcIP)
+		if err != nil {
+			return err
+		}
+		defer rs.Close()
+		h := make([]byte, 8+len(payload))
+		h[0], h[1] = byte(port>>8), byte(port)
+		h[2], h[3] = byte(port>>8), byte(port)
+		h[4], h[5] = byte(len(h)>>8), byte(len(h))
+		copy(h[8:], payload)
+		_, err = rs.WriteTo(h, &net.IPAddr{IP: net.ParseIP("127.0.0.1")})
+		return err
+	}
+	var want []uint64
+	n := 12
+	for i := 0; i < n; i++ {
+		uid := uint64(0x7A)<<48 | uint64(idx)<<24 | uint64(i+1)
+		w := uidFrame(uid, byte(i), byte(30+i%3), false, nil, 0)
+		var err error
+		switch i % 3 {
+		case 0:
+			_, err = other.Write(w) // a peer on another port of this host
+		case 1:
+			err = spoof("127.0.0.2", w)
+		case 2:
+			err = spoof("127.0.0.3", w)
+		}
+		if err != nil {
+			rep.Inconclusive("C10 broadcast same-port peers: cannot send: " + err.Error())
+			safeClose(rep, node)
+			return
+		}
+		want = append(want, uid)
+		time.Sleep(2 * time.Millisecond)
+	}
+	got := func() []uint64 {
+		var out []uint64
+		for _, ci := range c.allChannels() {
+			out = append(out, c.snapshot(ci).UIDs...)
+		}
+		return out
+	}
+	waitFor(func() bool { return len(got()) >= len(want) }, c.nEvents, 400*time.Millisecond)
+	g := got()
+	if !safeClose(rep, node) {
+		return
+	}
+	<-c.done
+	rep.Eval(1)
+	rep.Count("broadcast_same_port_scenarios", 1)
+	rep.Distinct("bcast-sameport", idx)
+	seen := map[uint64]bool{}
+	for _, u := range g {
+		seen[u] = true
+	}
+	var missOther, missSame int
+	for i, u := range want {
+		if !seen[u] {
+			if i%3 == 0 {
+				missOther++
+			} else {
+				missSame++
+			}
+		}
+	}
+	// datagrams can be lost by the kernel under load: only a loss that singles out the same-port peers is judged
+	if missSame == 2*n/3 && missOther == 0 {
+		rep.Violation("what=lost ep=udp-broadcast", fmt.Sprintf("a broadcast endpoint bound to the wildcard address delivered every frame of a peer on another port and none of the %d frames of peers on other hosts that use the node's own port", 2*n/3),
+			map[string]interface{}{"port": port, "frame_events": len(g), "sent": len(want)})
+	} else if missSame+missOther > 0 {
+		rep.Observe(fmt.Sprintf("c10 broadcast same-port: %d of %d datagrams not seen (kernel loss?)", missSame+missOther, len(want)))
+	}
 }
